@@ -150,12 +150,41 @@ Proof.
     apply IH in H. tauto.
 Qed.
 
+Lemma NoDup_snoc {A} (l : list A) x : NoDup l -> ~ In x l -> NoDup (l ++ [x]).
+Proof.
+  induction l as [|a l IH]; simpl; intros Hnd Hni.
+  - constructor; [simpl; tauto|constructor].
+  - inversion Hnd; subst. constructor.
+    + intro Hin. apply in_app_or in Hin. destruct Hin as [Hin|[Hin|[]]]; [auto|].
+      subst. apply Hni. left. reflexivity.
+    + apply IH; auto.
+Qed.
+
+Lemma aset_aset {A} k (a b : A) l : aset k b (aset k a l) = aset k b l.
+Proof.
+  induction l as [|[k' v'] l IH]; simpl.
+  - rewrite N.eqb_refl. reflexivity.
+  - destruct (N.eqb k k') eqn:E; simpl.
+    + rewrite N.eqb_refl. reflexivity.
+    + rewrite E, IH. reflexivity.
+Qed.
+
+Lemma bremove_notin {A} k (l : list (bytes * A)) : NoDup (map fst l) -> ~ In k (map fst (bremove k l)).
+Proof.
+  induction l as [|[k2 v2] l IH]; simpl; intros H; [tauto|].
+  inversion H; subst. destruct (bytes_eqb k k2) eqn:E; simpl.
+  - apply bytes_eqb_eq in E. subst. auto.
+  - intros [H1|H1]; [subst; rewrite bytes_eqb_refl in E; discriminate|]. apply IH; auto.
+Qed.
+
 (* ---------------- the inode table ---------------- *)
 Lemma get_put_same f i n : get (put f i n) i = Some n.
 Proof. unfold get, put. simpl. apply alookup_aset_same. Qed.
 Lemma get_put_other f i j n : j <> i -> get (put f i n) j = get f j.
 Proof. intros H. unfold get, put. simpl. apply alookup_aset_other. exact H. Qed.
 Lemma next_put f i n : f_next (put f i n) = f_next f. Proof. reflexivity. Qed.
+Lemma put_put f i a b : put (put f i a) i b = put f i b.
+Proof. unfold put. simpl. rewrite aset_aset. reflexivity. Qed.
 
 Lemma get_alloc_new f n : get (fst (alloc f n)) (snd (alloc f n)) = Some n.
 Proof. unfold alloc, get. simpl. apply alookup_aset_same. Qed.
